@@ -213,7 +213,12 @@ impl<T> Pool<T> {
         crate::verif::point("uget.permit");
         let obj = {
             let mut queue = inner.queue.lock().unwrap();
-            queue.pop().unwrap()
+            queue.pop()
+        };
+        // The queue can only be empty here if the pool was closed (and
+        // cleared) after the permit was obtained.
+        let Some(obj) = obj else {
+            return Err(PoolError::Closed);
         };
         #[cfg(deadpool_verif)]
         crate::verif::point("uget.popped");
@@ -260,7 +265,12 @@ impl<T> Pool<T> {
         crate::verif::point("uget.permit");
         let obj = {
             let mut queue = inner.queue.lock().unwrap();
-            queue.pop().unwrap()
+            queue.pop()
+        };
+        // The queue can only be empty here if the pool was closed (and
+        // cleared) after the permit was obtained.
+        let Some(obj) = obj else {
+            return Err(PoolError::Closed);
         };
         #[cfg(deadpool_verif)]
         crate::verif::point("uget.popped");
